@@ -39,10 +39,19 @@
     apibm <k> <unc>           -> false | true <hex>     BaseMultiply(k, out)        k, pub = byte strings (hex, `-` = empty)
     apibma <pub> <k> <unc>    -> false | true <hex>     BaseMultiplyAdd(pub, k, out)
     apimul <pub> <k> <unc>    -> false | true <hex> | panic   Multiply(pub, k, out)
+    setxyzarg <xyz>           -> <xyz>                  what XY.SetXYZ leaves in its ARGUMENT (rescaled in place, Z = 1)
+    hist <nJ> <nA> <xyz>*nJ <xy>*nA <op>…  -> <xyz> | … | <xy> | …  | panic     a history of method calls on nJ Jacobian
+                                              and nA affine OBJECTS (Model.GroupHist): dbl:i:k add:i:j:k addxy:i:a:k
+                                              neg:i:k negxy:a:b setxyz:i:a setxy:a:k gen:s:k lam:i:k mult:i:na:ng:k
+                                              (indices decimal, scalars hex); reply = every register afterwards
+    invsched <i,i,…|-> <fe>…  -> <fe> …                 InvVar of several callers under an interleaving of their steps
+                                              (Model.GroupSched, variant = the regenerated fact invScratchShared)
 -/
 import GocoinV.Model.Group
 import GocoinV.Model.GroupNum
 import GocoinV.Model.GroupApi
+import GocoinV.Model.GroupHist
+import GocoinV.Model.GroupSched
 import GocoinV.Base.Proto
 open GocoinV GocoinV.C08 GocoinV.Gen.Field5x52 GocoinV.Gen
 
@@ -98,6 +107,53 @@ def apiStr : ApiRes → String
   | .panic => "panic"
   | .refused => "false"
   | .ok out => "true " ++ natBytesHex out
+
+/-- n register descriptions of `w` tokens each from the front of the token list -/
+def takeRegs {α : Type} (parse : List String → Option α) (w : Nat) : Nat → List String → Option (List α × List String)
+  | 0, ts => some ([], ts)
+  | n + 1, ts =>
+    if ts.length < w then none else
+    match parse (ts.take w), takeRegs parse w n (ts.drop w) with
+    | some a, some (l, rest) => some (a :: l, rest)
+    | _, _ => none
+
+def hop? (s : String) : Option HOp :=
+  match s.splitOn ":" with
+  | ["dbl", i, k] => do pure (.dbl (← i.toNat?) (← k.toNat?))
+  | ["add", i, j, k] => do pure (.add (← i.toNat?) (← j.toNat?) (← k.toNat?))
+  | ["addxy", i, a, k] => do pure (.addxy (← i.toNat?) (← a.toNat?) (← k.toNat?))
+  | ["neg", i, k] => do pure (.neg (← i.toNat?) (← k.toNat?))
+  | ["negxy", a, b] => do pure (.negxy (← a.toNat?) (← b.toNat?))
+  | ["setxyz", i, a] => do pure (.setxyz (← i.toNat?) (← a.toNat?))
+  | ["setxy", a, k] => do pure (.setxy (← a.toNat?) (← k.toNat?))
+  | ["gen", sc, k] => do pure (.gen (← hexNat? sc) (← k.toNat?))
+  | ["lam", i, k] => do pure (.lam (← i.toNat?) (← k.toNat?))
+  | ["mult", i, na, ng, k] => do pure (.mult (← i.toNat?) (← hexInt? na) (← hexNat? ng) (← k.toNat?))
+  | _ => none
+
+def regsStr (r : Regs) : String := " | ".intercalate (r.J.map xyzStr ++ r.A.map xyStr)
+
+def histReply (nj na : Nat) (ts : List String) : Option String := do
+  let (js, ts) ← takeRegs xyz? 4 nj ts
+  let (as, ts) ← takeRegs xy? 3 na ts
+  let ops ← ts.mapM hop?
+  -- a register index out of range is a malformed request, an ECmult panic is an observation
+  let inRange (o : HOp) : Bool := match o with
+    | .dbl i k | .neg i k | .lam i k => i < nj && k < nj
+    | .add i j k => i < nj && j < nj && k < nj
+    | .addxy i a k => i < nj && a < na && k < nj
+    | .negxy a b => a < na && b < na
+    | .setxyz i a => i < nj && a < na
+    | .setxy a k => a < na && k < nj
+    | .gen _ k => k < nj
+    | .mult i _ _ k => i < nj && k < nj
+  if !ops.all inRange then none else
+  match run ops ⟨js, as⟩ with
+  | some r => pure (regsStr r)
+  | none => pure "panic"
+
+def schedOf? (s : String) : Option (List Nat) :=
+  if s == "-" then some [] else (s.splitOn ",").mapM (·.toNat?)
 
 def constByName : String → Option Nat
   | "order" => some CurveConsts.order | "halforder" => some CurveConsts.halfOrder | "p" => some CurveConsts.p
@@ -206,6 +262,17 @@ def step (_ : Unit) (toks : List String) : Unit × String :=
   | ["apimul", p, k, u] => match bytesAny? p, bytesAny? k, bool? u with
     | some p, some k, some u => ((), apiStr (multiply p (C08.beVal k) u))
     | _, _, _ => bad
+  | ["setxyzarg", x, y, z, i] => match xyz? [x, y, z, i] with | some a => ((), xyzStr (XYZ.afterSetXYZ a)) | none => bad
+  | "hist" :: nj :: na :: rest => match nj.toNat?, na.toNat? with
+    | some nj, some na =>
+      if nj > 16 ∨ na > 16 then bad else
+      match histReply nj na rest with | some s => ((), s) | none => bad
+    | _, _ => bad
+  | "invsched" :: sc :: fes => match schedOf? sc, fes.mapM fe? with
+    | some sc, some as =>
+      if as.isEmpty ∨ as.length > 16 ∨ !sc.all (· < as.length) then bad
+      else ((), " ".intercalate ((InvSched.results as sc).map feStr))
+    | _, _ => bad
   | _ => bad
 
 def main : IO Unit := Proto.serve () step
